@@ -114,6 +114,19 @@ well_known_harness!(c17_well_known_b, (1034, "es-ES"), (1040, "it-IT"), (1046, "
 well_known_harness!(c17_well_known_c, (2052, "zh-CN"), (1028, "zh-TW"), (1043, "nl-NL"), (1053, "sv-SE"), (1045, "pl-PL"), (1055, "tr-TR"));
 well_known_harness!(c17_well_known_d, (9, "en"), (12, "fr"), (7, "de"), (17, "ja"), (10, "es"), (3081, "en-AU"));
 
+// three-letter languages and their regions (a prefix of them is a two-letter language of the table)
+well_known_harness!(c17_well_known_e, (0x0457, "kok-IN"), (0x047a, "arn-CL"), (0x0475, "haw-US"), (0x0485, "sah-RU"), (0x0486, "qut-GT"), (0x57, "kok"));
+
+/// an unknown language is neutral even when a known two-letter language is a prefix of it
+#[kani::proof]
+#[kani::unwind(130)]
+fn c17_unknown_language_with_known_prefix() {
+    assert!(Language::from_tag("enx-US").code() == 0, "C17: a tag whose language is unknown must map to the neutral language");
+    assert!(Language::from_tag("enx").code() == 0, "C17: a tag whose language is unknown must map to the neutral language");
+    assert!(Language::from_tag("e-US").code() == 0, "C17: a tag whose language is unknown must map to the neutral language");
+    kani::cover!(true);
+}
+
 /// tag -> language -> tag is stable for every code whose tag has length L
 /// (thorough tier: needs --unwindset on from_tag's two table loops).
 fn stable<const L: usize>() {
